@@ -43,7 +43,15 @@ def build_go(moddir, name):
     out = os.path.join(scratch(), name)
     src = os.path.join(VERIF, moddir)
     # go.sum of the repo is the authority for module hashes (offline, GOFLAGS=-mod=mod)
-    p = sh(['go', 'build', '-o', out, '.'], cwd=src, check=False, timeout=900)
+    cmd = ['go', 'build', '-o', out, '.']
+    if REPO != '/repo':
+        # checks normally run against /repo; VERIF_REPO points them at another checkout (used to try seeded changes in scratch worktrees)
+        mf = os.path.join(scratch(), name + '.mod')
+        txt = open(os.path.join(src, 'go.mod')).read().replace('=> /repo', '=> ' + REPO)
+        open(mf, 'w').write(txt)
+        shutil.copy(os.path.join(src, 'go.sum'), os.path.join(scratch(), name + '.sum'))
+        cmd = ['go', 'build', '-modfile=' + mf, '-o', out, '.']
+    p = sh(cmd, cwd=src, check=False, timeout=900)
     if p.returncode != 0:
         raise BuildError(p.stdout + p.stderr)
     return out
@@ -186,8 +194,9 @@ class Run:
             if f.get('status') == 'open' and key is not None and f.get('key') == key:
                 self.known.append((what, key))
                 return
-        os.makedirs(os.path.join(VERIF, 'replays'), exist_ok=True)
-        path = os.path.join(VERIF, 'replays', '%s_%d.json' % (self.pid, len(self.violations)))
+        rdir = os.environ.get('VERIF_REPLAY_DIR') or os.path.join(VERIF, 'replays')
+        os.makedirs(rdir, exist_ok=True)
+        path = os.path.join(rdir, '%s_%d.json' % (self.pid, len(self.violations)))
         json.dump(replay_obj, open(path, 'w'), indent=1, default=str)
         self.violations.append((what, path))
 
@@ -220,8 +229,9 @@ class Run:
             cov.update(coverage_extra)
         ev = {'property_id': self.pid, 'tier': self.tier, 'seed': self.seed, 'level': self.level, 'coverage': cov,
               'assumptions': self.assumptions, 'wall_s': round(wall, 2), 'violations': len(self.violations)}
-        os.makedirs(os.path.join(VERIF, 'evidence'), exist_ok=True)
-        json.dump(ev, open(os.path.join(VERIF, 'evidence', self.pid + '.json'), 'w'), indent=1, default=str)
+        evdir = os.environ.get('VERIF_EVIDENCE_DIR') or os.path.join(VERIF, 'evidence')
+        os.makedirs(evdir, exist_ok=True)
+        json.dump(ev, open(os.path.join(evdir, self.pid + '.json'), 'w'), indent=1, default=str)
         for what, key in self.known:
             print('KNOWN-FINDING: property=%s %s (%s)' % (self.pid, key, what))
         if self.violations:
